@@ -35,37 +35,31 @@ theorem not_mem_names_iff (m : Mach) (x : Nat) (k : String) :
     ¬ k ∈ Ops.names m x ↔ (dictGet? (dictOf m x) k).isNone = true := by
   rw [mem_names_iff]; cases dictGet? (dictOf m x) k <;> simp
 
+theorem opt_cases {α : Type} (x : Option α) : x = none ∨ ∃ a, x = some a := by
+  cases x <;> simp
+
 theorem addResult_eq (m : Mach) (s a : Nat) : Generated.C06Sim.addResult m s a = C06M.addResult m s a := by
   unfold Generated.C06Sim.addResult C06M.addResult Ops.deref Ops.setEntryNewList
   cases m.res[a]? <;> rfl
 
 theorem appendResult_eq (m : Mach) (s a : Nat) :
     Generated.C06Sim.appendResult m s a = C06M.appendResult m s a := by
-  unfold Generated.C06Sim.appendResult C06M.appendResult
-  cases hr : m.res[a]? with
-  | none => simp [Ops.deref, hr]
-  | some r =>
-    simp only [Ops.deref, hr]
-    cases hd : dictGet? (dictOf m s) r.name with
-    | none =>
-      have : ¬ r.name ∈ Ops.names m s := by rw [not_mem_names_iff, hd]; rfl
-      simp only [this, if_false]
-      exact (addResult_eq m s a).symm ▸ (by
-        unfold Generated.C06Sim.addResult Ops.deref; simp only [hr])
-    | some l =>
-      have : r.name ∈ Ops.names m s := by rw [mem_names_iff, hd]; rfl
-      simp only [this, if_true, Ops.getList, hd, Ops.first]
-      cases hl : listAt m l with
-      | nil => rfl
-      | cons a0 rest =>
-        simp only []
-        cases hr0 : m.res[a0]? with
-        | none => rfl
-        | some r0 =>
-          simp only []
-          by_cases ht : r0.ty = r.ty
-          · simp only [ht, if_true, Ops.listAppend, hl]
-          · simp only [ht, if_false]
+  unfold Generated.C06Sim.appendResult C06M.appendResult C06M.addResult
+  simp only [Ops.deref, mem_names_iff, not_mem_names_iff, Ops.getList, Ops.first, Ops.listAppend,
+    Ops.setEntryNewList]
+  -- the result given, the stored list, its first element: split in turn
+  rcases opt_cases (m.res[a]?) with hr | ⟨r, hr⟩
+  · simp [hr]
+  · simp only [hr]
+    rcases opt_cases (dictGet? (dictOf m s) r.name) with hd | ⟨l, hd⟩
+    · simp [hd, hr]
+    · have hl : listAt m l = [] ∨ ∃ a0 rest, listAt m l = a0 :: rest := by
+        cases listAt m l <;> simp
+      rcases hl with hl | ⟨a0, rest, hl⟩
+      · simp [hd, hl]
+      · rcases opt_cases (m.res[a0]?) with hr0 | ⟨r0, hr0⟩
+        · simp [hd, hl, hr0]
+        · by_cases ht : r0.ty = r.ty <;> simp [hd, hl, hr0, ht, hr]
 
 theorem res_allocRes (m : Mach) (r : Res) : (allocRes m r).1.res[(allocRes m r).2]? = some r := by
   simp [allocRes]
@@ -224,72 +218,67 @@ theorem mkRes_nsr : mkRes "num_skipped_reps" .sum false none = .ok (fresh nsr .s
 theorem size_eq_zero_iff (m : Mach) (s : Nat) : Ops.size m s = 0 ↔ dictOf m s = [] := by
   simp [Ops.size]
 
-theorem opt_cases {α : Type} (x : Option α) : x = none ∨ ∃ a, x = some a := by
-  cases x <;> simp
+/-- `self.add_new_result('num_skipped_reps', SUMTYPE, 0)` spelled with the primitives -/
+theorem setEntry_nsr (m : Mach) (s : Nat) :
+    Ops.setEntryNewList
+        (allocRes m (update (fresh "num_skipped_reps" .sum false 0) ⟨0, some 0⟩).1).1 s
+        (update (fresh "num_skipped_reps" .sum false 0) ⟨0, some 0⟩).1.name
+        [(allocRes m (update (fresh "num_skipped_reps" .sum false 0) ⟨0, some 0⟩).1).2]
+      = (addNewSumZero m s "num_skipped_reps").1 := by
+  unfold addNewSumZero C06M.addResult Ops.setEntryNewList
+  simp [allocRes, fresh, update]
 
-/-- validation of `'num_skipped_reps'` (against a new SUM result when `self` has none) -/
-theorem if1_eq (s o : Nat) (m : Mach) : mergeAll_if1 s o m = (m, checkNsr m s o) := by
-  unfold mergeAll_if1 checkNsr
-  simp only [mem_names_iff, nsr, lastOf, Ops.getList, Ops.last, Ops.deref, mkRes_nsr]
-  rcases opt_cases (dictGet? (dictOf m o) "num_skipped_reps") with ho | ⟨lo, ho⟩
-  · simp [ho]
-  · rcases opt_cases ((listAt m lo).getLast?) with hb | ⟨b, hb⟩
-    · rcases opt_cases (dictGet? (dictOf m s) "num_skipped_reps") with hs | ⟨ls, hs⟩
-      · simp [ho, hs, hb]
-      · rcases opt_cases ((listAt m ls).getLast?) with ha | ⟨a, ha⟩
-        · simp [ho, hs, hb, ha]
-        · rcases opt_cases (m.res[a]?) with hra | ⟨ra, hra⟩ <;> simp [ho, hs, hb, ha, hra]
-    · rcases opt_cases (m.res[b]?) with hrb | ⟨rb, hrb⟩
-      · rcases opt_cases (dictGet? (dictOf m s) "num_skipped_reps") with hs | ⟨ls, hs⟩
-        · simp [ho, hs, hb, hrb]
-        · rcases opt_cases ((listAt m ls).getLast?) with ha | ⟨a, ha⟩
-          · simp [ho, hs, hb, ha]
-          · rcases opt_cases (m.res[a]?) with hra | ⟨ra, hra⟩ <;> simp [ho, hs, hb, ha, hra, hrb]
-      · rcases opt_cases (dictGet? (dictOf m s) "num_skipped_reps") with hs | ⟨ls, hs⟩
-        · simp only [ho, hs, hb, hrb, Option.isSome_some, Option.isNone_some, Option.isSome_none,
-            Option.isNone_none, if_true, Bool.false_eq_true, if_false]
-          cases mergeGuard (fresh "num_skipped_reps" Ty.sum false 0) rb <;> rfl
-        · rcases opt_cases ((listAt m ls).getLast?) with ha | ⟨a, ha⟩
-          · simp [ho, hs, hb, ha]
-          · rcases opt_cases (m.res[a]?) with hra | ⟨ra, hra⟩
-            · simp [ho, hs, hb, ha, hra, hrb]
-            · simp only [ho, hs, hb, ha, hra, hrb, Option.isSome_some, Option.isNone_some, if_true,
-                Bool.false_eq_true, if_false]
-              cases mergeGuard ra rb <;> rfl
+theorem dictOf_mergeNames (ds od : Dict) (m : Mach) (names : List String) (x : Nat) :
+    dictOf (mergeNames ds od m names).1 x = dictOf m x := by
+  simp [dictOf, mergeNames_sims]
 
-/-- `if 'num_skipped_reps' not in self.get_result_names(): self.add_new_result('num_skipped_reps', SUMTYPE, 0)` -/
-theorem if3_eq (s o : Nat) (m : Mach) :
-    mergeAll_if3 s o m
-      = (if (dictGet? (dictOf m s) nsr).isNone then (addNewSumZero m s nsr).1 else m, none) := by
-  unfold mergeAll_if3
-  simp only [not_mem_names_iff, createRes_nsr, nsr]
-  rcases opt_cases (dictGet? (dictOf m s) "num_skipped_reps") with hs | ⟨ls, hs⟩
-  · simp only [hs, Option.isNone_none, if_true]
-    unfold addNewSumZero C06M.addResult Ops.setEntryNewList
-    simp [allocRes, nsr, fresh, update]
-  · simp [hs]
+theorem listAt_mergeNames (ds od : Dict) (m : Mach) (names : List String) (l : Nat) :
+    listAt (mergeNames ds od m names).1 l = listAt m l := by
+  simp [listAt, mergeNames_lists]
 
-/-- the `'num_skipped_reps'` tail -/
-theorem if2_eq (s o : Nat) (m : Mach) : mergeAll_if2 s o m = mergeNsr m s o := by
-  unfold mergeAll_if2 mergeNsr
-  rw [if3_eq]
-  generalize (if (dictGet? (dictOf m s) nsr).isNone = true then (addNewSumZero m s nsr).1 else m) = m1
-  simp only [mem_names_iff, nsr, lastOf, Ops.getList, Ops.last]
-  rcases opt_cases (dictGet? (dictOf m o) "num_skipped_reps") with ho | ⟨lo, ho⟩
-  · simp [ho]
-  · simp only [ho, Option.isSome_some, Option.isNone_some, if_true, Bool.false_eq_true, if_false]
-    rcases opt_cases (dictGet? (dictOf m1 s) "num_skipped_reps") with hs | ⟨ls, hs⟩
-    · simp [hs]
-    · rcases opt_cases ((listAt m1 ls).getLast?) with ha | ⟨a, ha⟩
-      · simp [hs, ha]
-      · rcases opt_cases (dictGet? (dictOf m1 o) "num_skipped_reps") with ho' | ⟨lo', ho'⟩
-        · simp [hs, ha, ho']
-        · rcases opt_cases ((listAt m1 lo').getLast?) with hb | ⟨b, hb⟩
-          · simp [hs, ha, ho', hb]
-          · simp only [hs, ha, ho', hb]
-            generalize mergeR m1 a b = p
-            obtain ⟨m2, e⟩ := p
-            cases e <;> rfl
+/- `lookups M`: both sides of the goal run the look-ups `self._results[nsr][-1]`, `other[nsr][-1]` on the
+   machine `M` (in this order) and then the same `merge`: split them in turn -/
+set_option hygiene false in
+macro "lookups " M:term : tactic =>
+  `(tactic| (
+      rcases opt_cases (dictGet? (dictOf $M s) "num_skipped_reps") with h1 | ⟨l1, h1⟩
+      · simp [h1]
+      · rcases opt_cases ((listAt $M l1).getLast?) with h2 | ⟨a1, h2⟩
+        · simp [h1, h2]
+        · rcases opt_cases (dictGet? (dictOf $M o) "num_skipped_reps") with h3 | ⟨l2, h3⟩
+          · simp [h1, h2, h3]
+          · rcases opt_cases ((listAt $M l2).getLast?) with h4 | ⟨a2, h4⟩
+            · simp [h1, h2, h3, h4]
+            · simp only [h1, h2, h3, h4]
+              generalize mergeR $M a1 a2 = q
+              rcases q with ⟨m2, _ | e2⟩ <;> rfl))
+
+/- what follows a successful validation: the merge loop, then the `'num_skipped_reps'` tail.  Everything
+   after the loop reads the dictionaries of the machine before it (`merge` only writes Result objects).
+   Expects the facts `ho`, `hs` about `'num_skipped_reps'` in `other` / `self` in the context. -/
+set_option hygiene false in
+macro "after_validation" : tactic =>
+  `(tactic| (
+      generalize hp : mergeNames (dictOf m s) (dictOf m o) m (Ops.names m s) = p
+      obtain ⟨m1, e1⟩ := p
+      have hd1 : ∀ x, dictOf m1 x = dictOf m x := fun x => by
+        have := dictOf_mergeNames (dictOf m s) (dictOf m o) m (Ops.names m s) x
+        rw [hp] at this; exact this
+      rcases e1 with _ | e1
+      · simp only [hd1, ho, hs, Option.isSome_some, Option.isNone_some, Option.isSome_none, Option.isNone_none,
+          Bool.false_eq_true, if_false, if_true, not_true_eq_false, not_false_eq_true, setEntry_nsr]
+        first
+          | rfl
+          | lookups (addNewSumZero m1 s "num_skipped_reps").1
+          | (rcases opt_cases ((listAt m1 ls).getLast?) with h2 | ⟨a1, h2⟩
+             · simp [h2]
+             · rcases opt_cases ((listAt m1 lo).getLast?) with h4 | ⟨a2, h4⟩
+               · simp [h2, h4]
+               · simp only [h2, h4]
+                 generalize mergeR m1 a1 a2 = q
+                 rcases q with ⟨m2, _ | e2⟩ <;> rfl)
+          | lookups m1
+      · rfl))
 
 /-- the whole method -/
 theorem mergeAll_eq (m : Mach) (s o : Nat) (hnd : KeysNodup (dictOf m o)) :
@@ -308,24 +297,48 @@ theorem mergeAll_eq (m : Mach) (s o : Nat) (hnd : KeysNodup (dictOf m o)) :
         rw [show Ops.names m o = (dictOf m o).map (·.1) from rfl, this]
     · have h0 : ¬ Ops.size m s = 0 := fun h => he ((size_eq_zero_iff m s).mp h)
       have hn : ∀ x, List.map (fun e => e.1) (dictOf m x) = Ops.names m x := fun _ => rfl
-      simp only [h0, he, if_false, loop2_eq, if1_eq, loop3_eq, if2_eq, hn]
-      cases checkNames (dictOf m s) (dictOf m o) m (Ops.names m s) with
-      | some e => rfl
-      | none =>
-        simp only []
-        cases checkNsr m s o with
-        | some e => rfl
-        | none =>
-          simp only []
-          generalize mergeNames (dictOf m s) (dictOf m o) m (Ops.names m s) = p
-          obtain ⟨m1, e⟩ := p
-          cases e with
-          | some e => rfl
-          | none =>
-            simp only []
-            generalize mergeNsr m1 s o = q
-            obtain ⟨m2, e⟩ := q
-            cases e <;> rfl
+      simp only [h0, he, if_false, loop2_eq, loop3_eq, hn]
+      rcases opt_cases (checkNames (dictOf m s) (dictOf m o) m (Ops.names m s)) with hc | ⟨e, hc⟩
+      · simp only [hc]
+        unfold checkNsr mergeNsr
+        simp only [mem_names_iff, not_mem_names_iff, nsr, lastOf, Ops.getList, Ops.last, Ops.deref,
+          mkRes_nsr, createRes_nsr]
+        rcases opt_cases (dictGet? (dictOf m o) "num_skipped_reps") with ho | ⟨lo, ho⟩
+        · simp only [ho, Option.isSome_none, Option.isNone_none, Bool.false_eq_true, if_false, if_true]
+          generalize hp : mergeNames (dictOf m s) (dictOf m o) m (Ops.names m s) = p
+          obtain ⟨m1, e1⟩ := p
+          have hd1 : ∀ x, dictOf m1 x = dictOf m x := fun x => by
+            have := dictOf_mergeNames (dictOf m s) (dictOf m o) m (Ops.names m s) x
+            rw [hp] at this; exact this
+          rcases e1 with _ | e1
+          · simp [hd1, ho]
+          · rfl
+        · rcases opt_cases (dictGet? (dictOf m s) "num_skipped_reps") with hs | ⟨ls, hs⟩
+          · simp only [ho, hs, Option.isSome_some, Option.isNone_some, Option.isSome_none, Option.isNone_none,
+              Bool.false_eq_true, if_false, if_true, not_true_eq_false, not_false_eq_true]
+            rcases opt_cases ((listAt m lo).getLast?) with hb | ⟨b, hb⟩
+            · simp [hb]
+            · rcases opt_cases (m.res[b]?) with hrb | ⟨rb, hrb⟩
+              · simp [hb, hrb]
+              · rcases opt_cases (mergeGuard (fresh "num_skipped_reps" Ty.sum false 0) rb) with hg | ⟨eg, hg⟩
+                · simp only [hb, hrb, hg]
+                  after_validation
+                · simp [hb, hrb, hg]
+          · simp only [ho, hs, Option.isSome_some, Option.isNone_some, Bool.false_eq_true, if_false, if_true,
+              not_true_eq_false, not_false_eq_true]
+            rcases opt_cases ((listAt m ls).getLast?) with ha | ⟨a, ha⟩
+            · simp [ha]
+            · rcases opt_cases ((listAt m lo).getLast?) with hb | ⟨b, hb⟩
+              · simp [ha, hb]
+              · rcases opt_cases (m.res[a]?) with hra | ⟨ra, hra⟩
+                · simp [ha, hb, hra]
+                · rcases opt_cases (m.res[b]?) with hrb | ⟨rb, hrb⟩
+                  · simp [ha, hb, hra, hrb]
+                  · rcases opt_cases (mergeGuard ra rb) with hg | ⟨eg, hg⟩
+                    · simp only [ha, hb, hra, hrb, hg]
+                      after_validation
+                    · simp [ha, hb, hra, hrb, hg]
+      · simp [hc]
   · simp only [hv, if_false]
 
 end GenSim
